@@ -3,7 +3,7 @@
 //! (both recovery modes: `V`); the parse-parameter and the generic-tree mode are checked harness-side.
 use crate::gen::automaton::dump_automaton;
 use crate::gen::grammar::{self, GenCfg};
-use crate::gen::parse::{lr_terminates, parse_actions, parse_generic_shape, ActionCall, PTree, STRIDE, TOKLEN};
+use crate::gen::parse::{lr_terminates, parse_action_generictree_shape, parse_actions, parse_generic_shape, ActionCall, PTree, STRIDE, TOKLEN};
 use crate::gen::sentences::inputs_for;
 use crate::gen::worker::{arg_text_pub, WResult, Worker};
 use crate::out::{guarded, plist, Out};
@@ -117,6 +117,9 @@ pub fn emit(out: &mut Out, worker: &mut Worker, text: &str, rng: &mut Rng, thoro
                     if shape != shape_of(&g, t) {
                         hfail.get_or_insert(format!("parse_map tree differs from the tree built by actions on {:?}", w));
                     }
+                    if guarded(std::panic::AssertUnwindSafe(|| parse_action_generictree_shape(&g, &st, w, RecoveryKind::None))).ok().flatten().as_ref() != Some(&shape) {
+                        hfail.get_or_insert(format!("the tree built with lrpar::action_generictree differs from the generic parse-tree mode on {:?}", w));
+                    }
                 }
             }
             None => body.push(0),
@@ -149,6 +152,9 @@ pub fn emit(out: &mut Out, worker: &mut Worker, text: &str, rng: &mut Rng, thoro
                                     if let Some(shape) = parse_generic_shape(&g, &st, w, RecoveryKind::CPCTPlus) {
                                         if shape != shape_of(&g, t3) {
                                             hfail.get_or_insert(format!("parse_map tree differs from the action tree under recovery on {:?}", w));
+                                        }
+                                        if guarded(std::panic::AssertUnwindSafe(|| parse_action_generictree_shape(&g, &st, w, RecoveryKind::CPCTPlus))).ok().flatten().as_ref() != Some(&shape) {
+                                            hfail.get_or_insert(format!("the tree built with lrpar::action_generictree differs from the generic parse-tree mode under recovery on {:?}", w));
                                         }
                                     }
                                 }
